@@ -477,7 +477,7 @@ def c12(ctx):
 def c13(ctx):
     load_replay(ctx)
     ctx.model_selfcheck()
-    NS = ctx.q(160, 3200)
+    NS = ctx.q(160, 1600)
     builds = build_set(ctx, ctx.q(["prod", "clang-O2", "alts", "asan-gcc", "msan"], ["prod", "gcc-O0", "gcc-O2", "gcc-Os", "clang-O2", "clang-O3", "clang-Os", "gcc-O3+DNDEBUG", "clang-O3+DNDEBUG", "gcc-O2+DTINYJAMBU_FORCE_C32", "clang-O2+DTINYJAMBU_FORCE_C32", "gcc-O2+funsigned-char", "alts", "asan-gcc", "asan-clang", "msan"]))
     run_harness_on(ctx, "h_kdf.c", builds, ["--mode", "hkdf", "--p1", NS], 16, timeout=3000)
     abi.ilp32_monitor(ctx, ['hkdf'])
@@ -523,9 +523,9 @@ def c15(ctx):
     ctx.model_selfcheck()
     NH, NR = ctx.q((2500, 200), (100000, 4000))
     builds = build_set(ctx, ctx.q(["prod", "clang-O2", "alts", "asan-gcc", "msan"], ["prod", "gcc-O0", "gcc-O2", "gcc-Os", "clang-O2", "clang-O3", "clang-Os", "gcc-O3+DNDEBUG", "clang-O3+DNDEBUG", "gcc-O2+DTINYJAMBU_FORCE_C32", "clang-O2+DTINYJAMBU_FORCE_C32", "gcc-O2+funsigned-char", "alts", "asan-gcc", "asan-clang", "msan"]))
-    if ctx.thorough:       # full history count on the production and ASan objects, a fifth on the other builds
+    if ctx.thorough:       # full history count on the production and ASan objects, a tenth on the other builds
         run_harness_on(ctx, "h_prng.c", [b for b in builds if b["tag"] in ("prod-cmake-Release", "asan-gcc")], ["--mode", "model", "--p1", NH, "--p2", NR], 16, timeout=3000)
-        run_harness_on(ctx, "h_prng.c", [b for b in builds if b["tag"] not in ("prod-cmake-Release", "asan-gcc")], ["--mode", "model", "--p1", NH // 5, "--p2", NR // 5], 16, timeout=3000)
+        run_harness_on(ctx, "h_prng.c", [b for b in builds if b["tag"] not in ("prod-cmake-Release", "asan-gcc")], ["--mode", "model", "--p1", NH // 10, "--p2", NR // 10], 16, timeout=3000)
     else:
         run_harness_on(ctx, "h_prng.c", builds, ["--mode", "model", "--p1", NH, "--p2", NR], 16, timeout=3000)
     if ctx.thorough:
@@ -579,7 +579,7 @@ def c16(ctx):
 def c17(ctx):
     load_replay(ctx)
     ctx.model_selfcheck()
-    NR = ctx.q(300, 100000)
+    NR = ctx.q(300, 40000)
     builds = build_set(ctx, ctx.q(["prod", "clang-O2", "alts", "asan-gcc", "msan"], ["prod", "gcc-O0", "gcc-O2", "gcc-Os", "clang-O2", "clang-O3", "clang-Os", "gcc-O3+DNDEBUG", "clang-O3+DNDEBUG", "gcc-O2+DTINYJAMBU_FORCE_C32", "clang-O2+DTINYJAMBU_FORCE_C32", "gcc-O2+funsigned-char", "alts", "asan-gcc", "asan-clang", "msan"]))
     # the NULL-callback / plain-init paths end in the system source: also on the getentropy() configuration of it
     ge = ctx.make_config("getentropy", BASE_CFG + ["HAVE_GETENTROPY"])
